@@ -551,22 +551,17 @@ static int get_element(const struct peer *p, const struct cJSON *request, const 
 				return -1;
 			}
 
-			cJSON *path = cJSON_CreateString(e->path);
-			if (unlikely(path == NULL)) {
+			if (unlikely(!add_item_checked(root, "path", cJSON_CreateString(e->path)))) {
 				cJSON_Delete(root);
 				*response = create_error_response_from_request(p, request, INTERNAL_ERROR, "reason", "could not allocate memory for path object");
 				return -1;
 			}
-			cJSON_AddItemToObject(root, "path", path);
 
-			cJSON *value = cJSON_Duplicate(e->value, 1);
-			if (unlikely(value == NULL)) {
+			if (unlikely(!add_item_checked(root, "value", cJSON_Duplicate(e->value, 1)))) {
 				cJSON_Delete(root);
 				*response = create_error_response_from_request(p, request, INTERNAL_ERROR, "reason", "could not allocate memory for value");
 				return -1;
 			}
-
-			cJSON_AddItemToObject(root, "value", value);
 
 			cJSON_AddItemToArray(states, root);
 		}
